@@ -761,7 +761,7 @@ def k_external_dup(f, rng):
     return Exp(r"Instance names must be unique within a form.*'%s'" % re.escape(nm), "name", name=nm, alt_patterns=(r"more than one survey elements named",))
 
 
-@kind("search-and-plain-select-share-list", 2)
+@kind("search-and-plain-select-share-list", 3)
 def k_search_shared(f, rng):
     ln = pick(rng, sorted(f.choices))
     if not ln:
@@ -769,7 +769,10 @@ def k_search_shared(f, rng):
     a = fresh(f, "srch")
     add_row_somewhere(f, rng, Row("q", f"select_one {ln}", a, {"label": "L", "appearance": "search('fruits')"}))
     b = fresh(f, "plain")
-    add_row_somewhere(f, rng, Row("q", f"select_one {ln}", b, {"label": "L"}))
+    cells = {"label": "L"}
+    if rng.random() < 0.4:
+        cells["parameters"] = "randomize=true"  # reads the list through its instance, which a searched list does not get
+    add_row_somewhere(f, rng, Row("q", f"select_one {ln}", b, cells))
     return Exp(r"uses 'search\(\)', and its select type references the choice list name '%s'" % re.escape(ln), "name", name=a)
 
 
